@@ -120,6 +120,7 @@ class Scheduler(object):
         self.reason = None
         self.seq = 0
         self.events = []
+        self.ev_steps = []
         self.preemptions = 0
         self.timer_preemptions = 0
         self._lru = 0
@@ -146,6 +147,7 @@ class Scheduler(object):
         cur = self.cur
         ev = (self.seq, self.now, cur.name if cur is not None else "main", kind, data)
         self.events.append(ev)
+        self.ev_steps.append(self.steps)  # (how many scheduling points had been passed when this was recorded)
         return self.seq
 
     def _new_thread(self, name, target, args, kwargs, client):
